@@ -44,6 +44,7 @@ func cmdRun(args []string) {
 	alloc := fs.Int64("alloc", 0, "alloc budget")
 	merge := fs.String("merge", "", "comma-separated functions to if-convert")
 	verbose := fs.Bool("v", false, "print every path")
+	absConv := fs.Bool("abstract-conv", false, "float<->int conversions and rounding as UFs")
 	fs.Parse(args)
 
 	ov, err := buildOverlay(*repo, *verif)
@@ -65,6 +66,7 @@ func cmdRun(args []string) {
 	spec.Cfg.Unwind = *unwind
 	spec.Cfg.MaxPicks = *picks
 	spec.Cfg.AllocBudget = *alloc
+	spec.Cfg.AbstractConv = *absConv
 	spec.Cfg.Merge = map[string]bool{}
 	for _, m := range strings.Split(*merge, ",") {
 		if m != "" {
